@@ -27,6 +27,8 @@ declare -A CHECKS=(
  [r11a-m1]="C12" [r11a-m2]="C12" [r11a-m3]="C12" [r11a-m4]="C04" [r11b-m1]="C19" [r11b-m2]="C12" [r11b-m3]="C04" [r11b-m4]="C15" [r11c-m1]="C12" [r11c-m2]="C04"
  [r12a-m1]="C12" [r12a-m2]="C12 C13" [r12a-m3]="C12" [r12a-m4]="C13 C12" [r12b]="C19" [r12c-m1]="C04" [r12c-m2]="C01 C04" [r12c-m3]="C04 C05" [r12c-m4]="C05"
  [r12d-m1]="C11" [r12d-m2]="C12" [r12d-m3]="C13 C12"
+ [r13a-m1]="C13" [r13a-m2]="C19" [r13a-m3]="C19" [r13b-m1]="C12" [r13b-m2]="C05 C04" [r13b-m3]="C04 C05" [r13b-m4]="C12"
+ [r13c-m1]="C05 C11" [r13c-m2]="C11" [r13c-m3]="C11" [r13d-m1]="C01 C13" [r13d-m2]="C14" [r13d-m3]="C19" [r13d-m4]="C19"
  [c15c]="C15" [c15d-m1]="C15" [c15d-m2]="C19 C15" [c15d-m3]="C15" [c19b]="C19" [c19c]="C19" [c05b]="C05" [c04c]="C04"
 )
 for d in seeded/*/; do
